@@ -2,6 +2,7 @@ import Abmarl.Props.Examples
 import Abmarl.Spec.Pacman
 import Abmarl.Lemmas.Pacman
 import Abmarl.Lemmas.PacmanFloat
+import Abmarl.Lemmas.PacmanObs
 /-!
 # `PacmanSim` / `PacmanSimSimple` (`abmarl/examples/sim/pacman.py`): what is proved
 
@@ -196,6 +197,40 @@ theorem reset_goodV {cfg : Cfg} {w0 : World} (hcfg : CfgOK w0) (hA0 : AmmoC w0) 
             have := pacman_reset_establishes cfg w0 s.ex.w w' order _ t' hcfg hR hG.1 hG.2.ammo hG.2.noAmmo ha
             first | exact this.1 | exact this.2.1
 
+theorem reset_inG {cfg : Cfg} {w0 : World} (hcfg : CfgOK w0) (hA0 : AmmoC w0) (hN0 : NoAmmoC w0)
+    {order : List StateComp} (hR : PM.ResetOK cfg w0 order) {s s' : St} (hG : GoodV w0 s)
+    (h : reset cfg order s = .ok s') : Ex.AllInGrid s'.ex.w := by
+  unfold reset at h
+  cases he : Ex.reset cfg.toEx order s.ex with
+  | error e => rw [he] at h; cases h
+  | ok e =>
+    rw [he] at h
+    simp only [Except.ok.injEq] at h
+    subst h
+    have hsh := Ex.reset_shape he
+    unfold Ex.reset at he
+    split at he
+    · cases he
+    · split at he
+      · cases he
+      · rename_i w' t' ha
+        simp only [Except.ok.injEq] at he
+        subst he
+        all_goals
+          unfold GoodV at hG
+          cases hr : s.ex.rewards with
+          | none =>
+            rw [hr] at hG
+            simp only at hG
+            rw [hG] at ha
+            have := pacman_reset_establishes cfg w0 w0 w' order _ t' hcfg hR (SFrame.refl w0) hA0 hN0 ha
+            exact Ex.allInGrid_of_alive this.1 this.2.2
+          | some r =>
+            rw [hr] at hG
+            simp only at hG
+            have := pacman_reset_establishes cfg w0 s.ex.w w' order _ t' hcfg hR hG.1 hG.2.ammo hG.2.noAmmo ha
+            exact Ex.allInGrid_of_alive this.1 this.2.2
+
 theorem runOp_goodV {cfg : Cfg} {w0 : World} (hcfg : CfgOK w0) (hA0 : AmmoC w0) (hN0 : NoAmmoC w0)
     (s : St) (op : Op) (hop : OpOK cfg w0 op) (hG : GoodV w0 s) : GoodV w0 (runOp cfg s op).2 := by
   have hT : ∀ t, GoodV w0 (s.withTape t) := fun t => hG
@@ -348,8 +383,8 @@ theorem pacman_simIface_reachable (cfg : PM.Cfg) (w0 : World) (n : Nat) (hcfg : 
 
 namespace PM
 
-/-- once a reset has returned the world satisfies `WInvFloat` -/
-def FloatS (s : St) : Prop := s.ex.rewards.isSome = true → WInvFloat s.ex.w = true
+/-- once a reset has returned the world satisfies `WInvFloat` and every stored position is a grid cell -/
+def FloatS (s : St) : Prop := s.ex.rewards.isSome = true → WInvFloat s.ex.w = true ∧ Ex.AllInGrid s.ex.w
 
 theorem runOp_floatS {cfg : Cfg} {w0 : World} (hcfg : CfgOK w0) (hA0 : AmmoC w0) (hN0 : NoAmmoC w0)
     (s : St) (op : Op) (hop : OpOK cfg w0 op) (hG : GoodV w0 s) (hF : FloatS s) : FloatS (runOp cfg s op).2 := by
@@ -361,12 +396,13 @@ theorem runOp_floatS {cfg : Cfg} {w0 : World} (hcfg : CfgOK w0) (hA0 : AmmoC w0)
     | error e => exact hF
     | ok s' =>
       obtain ⟨_, hI, _, _⟩ := reset_goodV hcfg hA0 hN0 hop (s := s.withTape tape) hG h
-      exact fun _ => WInvFloat_of_WInv hI
+      exact fun _ => ⟨WInvFloat_of_WInv hI, reset_inG hcfg hA0 hN0 hop (s := s.withTape tape) hG h⟩
   | step acts tape =>
     simp only [runOp]
     intro hs
     rw [step_rewards_isSome] at hs
-    exact step_float cfg (s.withTape tape) acts (hT tape hs)
+    exact ⟨step_float cfg (s.withTape tape) acts (hT tape hs).1,
+      step_prim prim_inG cfg (s.withTape tape) acts (hT tape hs).2⟩
   | obs a tape =>
     simp only [runOp]
     cases h : getObs cfg (s.withTape tape) a with
@@ -430,8 +466,43 @@ theorem pacman_reachable_WInvFloat (cfg : PM.Cfg) (w0 : World) (hcfg : CfgOK w0)
     (t0 : Tape) (ops : List PM.Op) (hops : ∀ op ∈ ops, PM.OpOK cfg w0 op) :
     let s := (PM.runOps cfg { ex := { w := w0, tape := t0 } } ops).2
     s.ex.rewards.isSome = true → PM.WInvFloat s.ex.w = true := by
-  intro s
-  exact PM.runOps_floatS hcfg hA0 hN0 ops _ hops rfl (fun h => by cases h)
+  intro s hs
+  exact (PM.runOps_floatS hcfg hA0 hN0 ops { ex := { w := w0, tape := t0 } } hops rfl (fun h => by cases h) hs).1
+
+/-- … and the stored position of EVERY agent of the simulation — active, dead, floating after a refused teleport — is a
+cell of the grid -/
+theorem pacman_reachable_positions_in_grid (cfg : PM.Cfg) (w0 : World) (hcfg : CfgOK w0) (hA0 : AmmoC w0) (hN0 : NoAmmoC w0)
+    (t0 : Tape) (ops : List PM.Op) (hops : ∀ op ∈ ops, PM.OpOK cfg w0 op) :
+    let s := (PM.runOps cfg { ex := { w := w0, tape := t0 } } ops).2
+    s.ex.rewards.isSome = true → ∀ a < w0.n, s.ex.w.inGrid (s.ex.w.stOf a).pos = true := by
+  intro s hs a ha
+  have hF := (pacman_reachable_inv cfg w0 hcfg hA0 hN0 t0 ops hops hs).1
+  exact (PM.runOps_floatS hcfg hA0 hN0 ops { ex := { w := w0, tape := t0 } } hops rfl (fun h => by cases h) hs).2 a (by rw [sframe_n hF]; exact ha)
+
+/-- **observations of `PacmanSim` / `PacmanSimSimple` lie in the declared space, in every reachable state**: after any
+history as in `pacman_reachable_WInvFloat` (steps that raised included), once a reset has returned, for EVERY agent of the
+simulation — active, dead and still stored in its cell, floating in no cell after a refused teleport — every observer list the
+simulation was built with and every tape, `get_obs` returns, and `Ex.obsInSpace` holds: the key list of the observation dict is
+exactly the declared one and every value lies in the space its observer declared.  (The world may violate `WInv`; no transport
+to a `WInv` world exists — an active agent stored nowhere shades the masks from an empty cell —, so the observer theorems are
+re-proved from `WInvFloat`: Lemmas/PacmanObs.lean.)  Hypotheses as in `examples_observations_in_space`: positive encodings,
+non-negative initial ammunition. -/
+theorem pacman_observations_in_space (cfg : PM.Cfg) (w0 : World) (hcfg : CfgOK w0) (hA0 : AmmoC w0) (hN0 : NoAmmoC w0)
+    (t0 : Tape) (ops : List PM.Op) (hops : ∀ op ∈ ops, PM.OpOK cfg w0 op)
+    (henc : ∀ b < w0.n, 0 < w0.encOf b) (hammo : ∀ b < w0.n, 0 ≤ (w0.cfgOf b).initAmmo)
+    (ks : List Observers.Kind) (hks : cfg.observers = some ks) (a : Aid) (ha : a < w0.n) :
+    let s := (PM.runOps cfg { ex := { w := w0, tape := t0 } } ops).2
+    s.ex.rewards.isSome = true →
+    ∀ t, ∃ o s', PM.getObs cfg (s.withTape t) a = .ok (o, s') ∧ Ex.obsInSpace s.ex.w a ks o = true := by
+  intro s hs t
+  have hF := (pacman_reachable_inv cfg w0 hcfg hA0 hN0 t0 ops hops hs).1
+  have hW := PM.runOps_floatS hcfg hA0 hN0 ops { ex := { w := w0, tape := t0 } } hops rfl (fun h => by cases h) hs
+  have hn : s.ex.w.n = w0.n := sframe_n hF
+  exact PM.getObs_float cfg (s.withTape t) a ks hks hs hW.1 hW.2 (show a < s.ex.w.n by rw [hn]; exact ha)
+    (fun b (hb : b < s.ex.w.n) => show 0 < s.ex.w.encOf b by
+      rw [sframe_encOf hF]; exact henc b (by rw [← hn]; exact hb))
+    (fun b (hb : b < s.ex.w.n) => show 0 ≤ (s.ex.w.cfgOf b).initAmmo by
+      rw [sframe_cfgOf hF]; exact hammo b (by rw [← hn]; exact hb))
 
 /-- … and so does every state the managers can reach through `PM.toSimIface` -/
 theorem pacman_simIface_WInvFloat (cfg : PM.Cfg) (w0 : World) (n : Nat) (hcfg : CfgOK w0) (hA0 : AmmoC w0)
@@ -608,6 +679,30 @@ example :
       · trivial
       · trivial)
     (by decide +kernel), by decide +kernel⟩
+
+/-- `pacman_observations_in_space` is not vacuous: the observation of pacman, ACTIVE and stored in NO cell after the refused
+teleport (the world violates `WInv`) -/
+example :
+    let w0 := exPMWorld [(1, [3]), (4, [3, 4]), (3, [1, 4])] 21 (9, 1) (9, 20)
+    let s := (PM.runOps (exPMCfg false) { ex := { w := w0 } }
+      [exPMReset, .step [(0, 1), (1, 0)] [], .step [(0, 0), (1, 0)] []]).2
+    ∃ o s', PM.getObs (exPMCfg false) (s.withTape []) 0 = .ok (o, s') ∧ Ex.obsInSpace s.ex.w 0 [.absolute] o = true :=
+  pacman_observations_in_space (exPMCfg false) _ ((cfgOKb_iff _).mp (by decide +kernel))
+    (fun a _ h => by
+      have : a = 0 ∨ a = 1 ∨ a = 2 ∨ 3 ≤ a := by omega
+      rcases this with rfl | rfl | rfl | h3
+      · cases h
+      · cases h
+      · cases h
+      · simp [World.cfgOf, exPMWorld, List.getD_eq_getElem?_getD, h3] at h)
+    ((noAmmoCb_iff _).mp (by decide +kernel)) [] _
+    (fun op hop => by
+      simp only [List.mem_cons, List.mem_nil_iff, or_false] at hop
+      rcases hop with rfl | rfl | rfl
+      · exact ⟨Ex.resetOK_of_b (by decide +kernel), by simp [exPMReset]⟩
+      · trivial
+      · trivial)
+    (by decide +kernel) (by decide +kernel) [.absolute] rfl 0 (by decide) (by decide +kernel) []
 
 /-- the manager theorems are inhabited: an all-step run over the 21-column world -/
 example : specC01 .allStep 3 (exPMCfg false).isLearning false
